@@ -122,6 +122,14 @@ def mt_shrink(argv):
 
 
 def c03_make_run(seed, prop, i, fault_free):
+    if i % 12 == 7:
+        # the waiting-thread table as a root set: many threads queued on distinct objects
+        # while collections move those objects
+        r = sync_run(seed, prop, i, fault_free, events=True)
+        if not fault_free:
+            r["sim"]["pminor"] = max(r["sim"].get("pminor", 0), 2000)
+            r["sim"]["pfull"] = max(r["sim"].get("pfull", 0), 1000)
+        return r
     if i % 3 == 2:
         return mt_run(seed, prop, i, fault_free)
     return hg_run(seed, prop, i, fault_free)
@@ -156,7 +164,9 @@ def hg_shrink(argv):
 
 
 def hg_expect(argv, run):
-    if run["exe"][0] == "mtheap":
+    if run["exe"][0] == "sync":
+        out = ms.expected(argv)
+    elif run["exe"][0] == "mtheap":
         out = mm.expected(argv)
     else:
         out, _ = mh.run(argv)
@@ -427,8 +437,8 @@ def boots_workload_batch(tier, budget_s):
 def c03(tier):
     t0 = time.time()
     main = run_tier_b_property(
-        "C03", tier, quick_s=75, thorough_s=1200, drivers=["heapgraph", "mtheap"], collectors=["zero", "copy", "sweep", "swiper"], codegens=["cannon", "boots"],
-        make_run=c03_make_run, shrink=_ShrinkByDriver({"heapgraph": hg_shrink, "mtheap": mt_shrink}), expect_fn=hg_expect, write=False, key_fn=heap_key,
+        "C03", tier, quick_s=75, thorough_s=1200, drivers=["heapgraph", "mtheap", "sync"], collectors=["zero", "copy", "sweep", "swiper"], codegens=["cannon", "boots"],
+        make_run=c03_make_run, shrink=_ShrinkByDriver({"heapgraph": hg_shrink, "mtheap": mt_shrink, "sync": sync_shrink}), expect_fn=hg_expect, write=False, key_fn=heap_key,
         level_text="seeded search over generated object-graph scripts x collector x code generator x heap/young size x workers x TLAB x gc-verify x schedule x injected collections/allocation failures; oracle = Python reference model of the script (exact stdout), clean exit, no runtime assertion / gc-verify failure / signal, M-stw monitor inside every collection, M-sweep after every concurrent sweep")
     exit_code, cov, reported = main
     results, images, packages, refs = boots_workload_batch(tier, tier_budget(tier, 40, 600) if not os.environ.get("VERIF_BUDGET_S") else float(os.environ["VERIF_BUDGET_S"]) / 2)
@@ -489,10 +499,10 @@ def c03_replay(path):
     return 1 if v[0] == obj["violation_class"] else 3
 
 
-def sync_run(seed, prop, i, fault_free, collectors=("copy", "sweep", "swiper"), codegens=("cannon", "boots")):
+def sync_run(seed, prop, i, fault_free, collectors=("copy", "sweep", "swiper"), codegens=("cannon", "boots"), events=False):
     wl = tb.stream(seed, prop, i, "workload")
     cfg = tb.stream(seed, prop, i, "config")
-    script, prof = ms.generate(wl)
+    script, prof = ms.generate_events(wl) if events else ms.generate(wl)
     out = ms.expected(script)
     gc = cfg.choices(list(collectors), [3 if c != "swiper" else 5 for c in collectors])[0]
     cg = cfg.choice(list(codegens))
